@@ -1,56 +1,109 @@
-(* CorePhase2TimeT1W.v -- the invariant T1 through the kernel waits, the kernel-timer
-   optimisation, iv_fd_poll_and_run, iv_main and whole runs: codes 401 and 603. *)
+(* CorePhase2TimeT1W.v -- the invariant T1 through the kernel waits: the wait returns
+   within the bounds the loop owes (SReq), hence the tracker clauses 602 604 403 404 405
+   (and 901 902, given that a posted raw event is readable) hold at every TRet / THang. *)
 From Coq Require Import List ZArith Bool Lia.
 From Ivv Require Import Core.Kernel Core.CoreTypes Core.CoreFd Core.CoreModel Core.Monitors Core.CoreSpec
-  Core.CoreRel Core.CorePhase2TimeMon Core.CorePhase2TimeFr Core.CorePhase2TimeT1 Core.CorePhase2TimeT1L.
+  Core.CoreRel Core.CorePhase2TimeMon Core.CorePhase2TimeFr Core.CorePhase2TimeT1 Core.CorePhase2TimeT1L
+  Core.CorePhase2TimeMon2 Core.CorePhase2TimeSl Core.CorePhase2TimeReq.
+From Ivv Require Import Core.CoreInvBase Core.CoreInvDefs Core.CoreInvObj Core.CoreInvLoop Core.CoreInvWait.
+From Ivv Require Import Core.CorePhase2K1Base Core.CorePhase2K1Fd Core.CorePhase2K1Act Core.CorePhase2K1Inv
+  Core.CorePhase2K1Loop Core.CorePhase2K1Wait.
 From Ivv Require Timer.HeapModel.
 Import ListNotations.
 Local Open Scope Z_scope.
 
+(* ---------- the armed timer descriptor ---------- *)
+Definition ArmedT (s : core) (D : Z) : Prop :=
+  exists v e, k_get (kern s) (tfd s) = Some v /\ vkind v = K_TIMERFD /\ vdeadline v = D /\ D <> 0 /\
+              In e (ep (kern s)) /\ en_fd e = tfd s /\ en_events e = B_IN /\ en_enabled e = true.
+
+Lemma ArmedT_KArmed : forall s D, ArmedT s D -> KArmed (kern s) D.
+Proof.
+  intros s D (v & e & G & K & DL & NZ & I & EF & EV & EN). exists e. split; [exact I|].
+  exists v. rewrite EF. repeat split; try assumption. rewrite EV. reflexivity.
+Qed.
+
+Lemma ArmedT_TFs : forall s s' D, ArmedT s D -> TFs s s' -> ArmedT s' D.
+Proof.
+  intros s s' D (v & e & G & K & DL & NZ & I & EF & EV & EN) [KT' E1 E2 E3 E4].
+  destruct (kt_vfd _ _ _ KT' v G) as (v' & G' & (S1 & S2 & S3 & S4)).
+  exists v', e. rewrite E1. split; [exact G'|]. split; [congruence|]. split; [congruence|]. split; [exact NZ|].
+  split; [apply (kt_ent _ _ _ KT' e I EF)|]. auto.
+Qed.
+
+Lemma dd_nz : forall a, dd a <> 0.
+Proof. intros a. unfold dd. destruct (Z.eqb_spec a 0); lia. Qed.
+
+Lemma LK_ArmedT : forall s, LK s -> method s = M_ET -> last_abs_count s = 5 -> ArmedT s (dd (last_abs s)).
+Proof.
+  intros s [TE K] M C. destruct (K M C) as (NT & v & G & D).
+  destruct (TE NT) as (v' & e & O & KD & IE & EF & EV & EN).
+  apply k_open_get in O. destruct O as [G' _]. rewrite G in G'. inversion G'; subst v'.
+  exists v, e. repeat split; try assumption. apply dd_nz.
+Qed.
+
+(* ---------- a posted raw event is readable (supplied by the raw-event invariant) ---------- *)
+Definition RawQe (s : core) : Prop := forall j, inr16 j -> a_rw (mst s) j = true -> a_rwp (mst s) j = true ->
+  exists e, In e (ep (kern s)) /\ ep_ready_bits (kern s) e <> 0.
+Definition RawQp (s : core) : Prop := forall j, inr16 j -> a_rw (mst s) j = true -> a_rwp (mst s) j = true ->
+  exists p, In p (pfds s) /\ poll_revents (kern s) (fst p) (snd p) <> 0.
+
+Lemma raw_quiet : forall m, (forall j, inr16 j -> a_rw m j = true -> a_rwp m j = true -> False) ->
+  any_obj (fun j => a_rw m j && a_rwp m j) = false.
+Proof.
+  intros m H. apply any_obj_false. intros j JR. destruct (a_rw m j) eqn:A; [|reflexivity].
+  destruct (a_rwp m j) eqn:B; [|reflexivity]. exfalso. exact (H j JR A B).
+Qed.
+
 (* results of the poll functions: the wait resets the list of tasks that ran *)
-Definition Q1W (r : res) : Prop :=
-  match r with R s' => T1 s' /\ ran (mst s') = [] | Halt s' => G1 (mst s') end.
+Definition Q1W (s : core) (r : res) : Prop :=
+  match r with R s' => T1 s' /\ ran (mst s') = [] /\ BatchF s s' | Halt s' => G1 (mst s') end.
+
+Lemma Q1W_l : forall s0 s r, BatchF s0 s -> Q1W s r -> Q1W s0 r.
+Proof.
+  intros s0 s r F Q. destruct r; cbn [Q1W] in *; [|exact Q]. destruct Q as (A & B & C).
+  split; [exact A|split; [exact B|intros H; apply C; apply F; exact H]].
+Qed.
 
 Lemma T1_wait : forall s n call mx t i g, T1 s ->
   T1 (emit s (TWait n call mx t i g)) /\ ran (mst (emit s (TWait n call mx t i g))) = [].
 Proof.
-  intros s n call mx t i g T. destruct (t1_good _ T) as [G401 G603].
+  intros s n call mx t i g T.
   assert (RN : ran (mst (emit s (TWait n call mx t i g))) = []) by (rewrite mst_emit, ran_step; reflexivity).
   split; [|exact RN]. apply (T1_upd s _ T).
   - left. repeat split.
   - left. rewrite mst_emit, a_stale_step. repeat split.
   - right. intros y Y. rewrite RN in Y. destruct Y.
-  - rewrite mst_emit. split; apply NF_step; try assumption; cbn; intuition discriminate.
+  - rewrite mst_emit. apply G1_step; [apply (t1_good _ T)|reflexivity].
 Qed.
 
 (* the return of a wait, followed by the invalidation of the cached time *)
 Lemma T1_ret : forall s k1 n fds, T1 s -> clock (kern s) <= clock k1 ->
+  G1 (mon_step (mst s) (TRet n fds (clock k1))) ->
   T1 (invalidate_now (emit (set_kern s k1) (TRet n fds (clock k1)))) /\
   ran (mst (emit (set_kern s k1) (TRet n fds (clock k1)))) = ran (mst s).
 Proof.
-  intros s k1 n fds T C. set (s' := invalidate_now _).
+  intros s k1 n fds T C GR. set (s' := invalidate_now _).
   assert (M : mst s' = mon_step (mst s) (TRet n fds (clock k1))).
   { change (mst s') with (mst (emit (set_kern s k1) (TRet n fds (clock k1)))). rewrite mst_emit. reflexivity. }
   assert (RN : ran (mon_step (mst s) (TRet n fds (clock k1))) = ran (mst s)) by (rewrite ran_step; reflexivity).
-  destruct (t1_good _ T) as [G401 G603].
+  destruct (t1_stale _ T) as (ST1 & ST2 & ST3).
   split; [|rewrite mst_emit; exact RN].
   apply (T1_upd s s' T); rewrite ?M.
   - right. intros t I. destruct (t1_batch _ T t I) as [A _]. cbn [s' invalidate_now time_valid set_time].
     split; [|discriminate]. change (HeapModel.texp (heap s) t <= clock k1). lia.
-  - right. intros _ H. discriminate H.
+  - right. split; [intros _ H; discriminate H|]. split; [change (1 <= clock k1); lia|intros H; discriminate H].
   - left. rewrite RN. repeat split.
-  - split; apply NF_step; try assumption; destruct n; cbn; intuition discriminate.
+  - exact GR.
 Qed.
 
-Lemma T1_hang : forall s, T1 s -> G1 (mst (emit s THang)).
-Proof.
-  intros s T. destruct (t1_good _ T) as [G401 G603]. rewrite mst_emit.
-  split; apply NF_step; try assumption; cbn; intuition discriminate.
-Qed.
+Lemma G1_ret_none : forall m fds clk, G1 m -> G1 (mon_step m (TRet None fds clk)).
+Proof. intros m fds clk G. apply G1_step; [exact G|reflexivity]. Qed.
 
 Section Wait.
 Variable sc : scenario.
 Hypothesis WF : wf_scenario sc.
+Hypothesis do_action_ok : forall s a, InvW s -> wf_action a -> okr (StepW s) (do_action s a).
 
 Lemma wait_enter_Q1 : forall b s, J b s -> T1 s -> Q1 s (wait_enter sc s).
 Proof.
@@ -64,38 +117,84 @@ Proof.
   eapply Forall_impl; [|apply (wf_waits sc WF)]. apply wait_action_wf.
 Qed.
 
-Definition W1 (w : wres) : Prop :=
+Definition W1 (s : core) (w : wres) : Prop :=
   match w with
-  | WR s' _ => T1 (invalidate_now s') /\ ran (mst s') = []
-  | WE s' => T1 (invalidate_now s') /\ ran (mst s') = []
+  | WR s' _ => T1 (invalidate_now s') /\ ran (mst s') = [] /\ BatchF s s'
+  | WE s' => T1 (invalidate_now s') /\ ran (mst s') = [] /\ BatchF s s'
   | WH r => match r with Halt s' => G1 (mst s') | R _ => False end
   end.
 
-Lemma do_epoll_wait_Q1 : forall s call maxev timeout, J true s -> T1 s -> quit s = false ->
-  W1 (do_epoll_wait sc s call maxev timeout).
+Lemma W1_l : forall s0 s w, BatchF s0 s -> W1 s w -> W1 s0 w.
 Proof.
-  intros s call maxev timeout Jh T Q. unfold do_epoll_wait.
+  intros s0 s w F Q. destruct w as [s' evs|s'|r]; cbn [W1] in *; try exact Q;
+    destruct Q as (A & B & C); (split; [exact A|split; [exact B|intros H; apply C; apply F; exact H]]).
+Qed.
+
+Lemma do_epoll_wait_Q1 : forall s call maxev timeout A, J true s -> T1 s -> quit s = false -> InvW s ->
+  1 <= maxev -> SReq s call timeout A -> (forall D, A D -> ArmedT s D) ->
+  (forall s1, wait_enter sc s = R s1 -> RawQe s1) ->
+  W1 s (do_epoll_wait sc s call maxev timeout).
+Proof.
+  intros s call maxev timeout A Jh T Q IW MX RQ AR HR. unfold do_epoll_wait.
   pose proof (wait_enter_post sc WF true s Jh) as P. pose proof (wait_enter_Q1 true s Jh T) as QE.
+  pose proof (wait_enter_K sc WF do_action_ok s IW) as PKE.
+  pose proof (wait_enter_WFr sc s) as WE. specialize (HR).
   destruct (wait_enter sc s) as [s1|s1]; [|exact QE].
-  destruct P as (J1 & F1 & Q1'). destruct QE as [TS1 _].
+  destruct P as (J1 & F1 & Q1'). destruct QE as [TS1 [_ BF1]]. unfold PK in PKE. cbn [ARes] in PKE. destruct PKE as [IW1 TF1].
+  specialize (WE s1 WF eq_refl). specialize (HR s1 eq_refl).
   set (n := nwait (kern s1)).
-  set (s2 := emit s1 (TWait n call maxev timeout (interest_of (kern s1)) (ground (kern s1)))).
-  destruct (T1_wait s1 n call maxev timeout (interest_of (kern s1)) (ground (kern s1)) TS1) as [TS2 RN2]. fold s2 in TS2, RN2.
+  set (ev := TWait n call maxev timeout (interest_of (kern s1)) (ground (kern s1))).
+  set (s2 := emit s1 ev).
+  destruct (T1_wait s1 n call maxev timeout (interest_of (kern s1)) (ground (kern s1)) TS1) as [TS2 RN2]. fold ev s2 in TS2, RN2.
+  assert (J2 : J true s2) by (apply J_wait_event; [assumption|congruence]).
+  assert (BF2 : BatchF s s2) by (intros H; apply BF1; exact H).
   change (kern s2) with (kern s1).
   destruct (mem_z n (eintr_waits (flt (kern s1)))).
   - destruct (Z.ltb_spec 0 timeout).
     + set (k1 := k_set_clock (kern s2) (clock (kern s2) + timeout / 2)).
-      destruct (T1_ret s2 k1 None [] TS2) as [A B]; [cbn [k1 clock k_set_clock]; lia|].
-      cbn [W1]. split; [exact A|]. transitivity (ran (mst s2)); [exact B|exact RN2].
-    + destruct (T1_ret s2 (kern s2) None [] TS2) as [A B]; [lia|].
-      cbn [W1]. split; [exact A|]. transitivity (ran (mst s2)); [exact B|exact RN2].
-  - pose proof (epoll_sleep_spec (kern s1) maxev timeout (sc_rot sc n)) as KS.
+      destruct (T1_ret s2 k1 None [] TS2) as [X Y]; [cbn [k1 clock k_set_clock]; lia|apply G1_ret_none; apply (t1_good _ TS2)|].
+      cbn [W1]. split; [exact X|]. split; [transitivity (ran (mst s2)); [exact Y|exact RN2]|exact BF2].
+    + destruct (T1_ret s2 (kern s2) None [] TS2) as [X Y]; [lia|apply G1_ret_none; apply (t1_good _ TS2)|].
+      cbn [W1]. split; [exact X|]. split; [transitivity (ran (mst s2)); [exact Y|exact RN2]|exact BF2].
+  - (* the requirements at the sleeping point *)
+    assert (RQ2 : SReq s2 call timeout A).
+    { apply (SReq_keep s1 s2); [apply (SReq_WFr s s1); assumption|reflexivity|reflexivity|change (kern s2) with (kern s1); lia|].
+      change (mst s2) with (mst (emit s1 ev)). rewrite mst_emit. unfold ev. rewrite a_stale_step. auto. }
+    assert (AR2 : forall D, A D -> KArmed (kern s1) D).
+    { intros D H. apply (ArmedT_KArmed s1). eapply ArmedT_TFs; [apply AR; exact H|exact TF1]. }
+    assert (WC2 : w_call (mst s2) = call) by (change (mst s2) with (mst (emit s1 ev)); rewrite mst_emit; apply w_call_TWait).
+    assert (CP : 0 <= clock (kern s1)) by (destruct (t1_stale _ TS1) as (_ & X & _); lia).
+    assert (RW2 : RawQe s2).
+    { intros j JR A1 A2. change (mst s2) with (mst (emit s1 ev)) in A1, A2. rewrite mst_emit in A1, A2.
+      unfold ev in A2. rewrite a_rwp_step in A2.
+      assert (V : mview (mon_step (mst s1) ev) = mview (mst s1)) by apply mview_TWait.
+      assert (E : a_rw (mon_step (mst s1) ev) = a_rw (mst s1)) by (change (a_rw (mview (mon_step (mst s1) ev)) = a_rw (mst s1)); rewrite V; reflexivity).
+      rewrite E in A1. apply (HR j JR A1 A2). }
+    pose proof (epoll_sleep_spec (kern s1) maxev timeout (sc_rot sc n)) as KS.
+    assert (KB : forall D, KSBa (kern s1) timeout A D ->
+              match k_epoll_sleep (kern s1) maxev timeout (sc_rot sc n) with
+              | WReady k1 _ => clock (kern s1) <= clock k1 <= Z.max (clock (kern s1)) D
+              | WHang => False | _ => True end).
+    { intros D SB. apply epoll_sleep_bound; [exact MX|exact CP|]. apply (KSBa_KSB _ _ A); assumption. }
+    assert (KR : (exists e, In e (ep (kern s1)) /\ ep_ready_bits (kern s1) e <> 0) ->
+              match k_epoll_sleep (kern s1) maxev timeout (sc_rot sc n) with
+              | WReady k1 _ => clock k1 = clock (kern s1) | WHang => False | _ => True end).
+    { intros H. apply epoll_sleep_ready; assumption. }
     destruct (k_epoll_sleep (kern s1) maxev timeout (sc_rot sc n)) as [k1 evs|k1| |].
     + destruct KS as (K1 & K2 & K3 & K4).
-      destruct (T1_ret s2 k1 (Some (Z.of_nat (length evs))) (map (fun e => fst (fst e)) evs) TS2 K2) as [A B].
-      cbn [W1]. split; [exact A|]. transitivity (ran (mst s2)); [exact B|exact RN2].
+      assert (GR : G1 (mon_step (mst s2) (TRet (Some (Z.of_nat (length evs))) (map (fun e => fst (fst e)) evs) (clock k1)))).
+      { destruct (SReq_ret s2 call timeout A (clock k1) J2 RQ2 WC2) as [C602 C04].
+        { intros D SB. specialize (KB D SB). change (kern s2) with (kern s1). lia. }
+        apply G1_TRet_some; [apply (t1_good _ TS2)|exact C602| |exact C04].
+        intros SL. apply raw_quiet. intros j JR A1 A2. specialize (KR (RW2 j JR A1 A2)).
+        rewrite (ag_clk _ _ (j_ag _ _ J2)) in SL. change (kern s2) with (kern s1) in SL. lia. }
+      destruct (T1_ret s2 k1 (Some (Z.of_nat (length evs))) (map (fun e => fst (fst e)) evs) TS2 K2 GR) as [X Y].
+      cbn [W1]. split; [exact X|]. split; [transitivity (ran (mst s2)); [exact Y|exact RN2]|exact BF2].
     + destruct KS.
-    + cbn [W1 halt]. apply T1_hang. exact TS2.
+    + cbn [W1 halt]. rewrite mst_emit.
+      destruct (SReq_hang s2 call timeout A J2 RQ2) as [H1 H2]; [intros D SB; exact (KB D SB)|].
+      apply G1_THang; [apply (t1_good _ TS2)|exact H1|exact H2|].
+      apply raw_quiet. intros j JR A1 A2. exact (KR (RW2 j JR A1 A2)).
     + destruct KS.
 Qed.
 
@@ -114,25 +213,6 @@ Proof.
   destruct (to_relative s abs) as [s1 [r|]]; exact P.
 Qed.
 
-Lemma epoll_wait_m_Q1 : forall s abs maxev, J true s -> T1 s -> quit s = false ->
-  W1 (epoll_wait_m sc s abs maxev).
-Proof.
-  intros s abs maxev Jh T Q. unfold epoll_wait_m.
-  assert (VIA : forall s0, J true s0 -> T1 s0 -> quit s0 = false ->
-     W1 (let '(s1, ms) := to_msec s0 abs in do_epoll_wait sc s1 0 maxev (if ms <? 0 then -1 else ms * 1000000))).
-  { intros s0 J0 T0 Q0. pose proof (to_msec_post true s0 abs J0) as P. pose proof (T1_to_msec s0 abs T0) as P1.
-    destruct (to_msec s0 abs) as [s1 ms]. cbn [fst] in P, P1. destruct P as (J1 & F1 & Q1').
-    apply do_epoll_wait_Q1; [assumption|apply P1|congruence]. }
-  destruct (pwait2 s); [|apply VIA; assumption].
-  pose proof (to_relative_post true s abs Jh) as P. pose proof (T1_to_relative s abs T) as P1.
-  destruct (to_relative s abs) as [s1 rel]. cbn [fst] in P, P1. destruct P as (J1 & F1 & Q1').
-  destruct (no_pwait2 (flt (kern s1)) || perm_pwait2 (flt (kern s1))).
-  - set (s2 := set_epoll s1 (epfd s1) (tfd s1) false).
-    apply VIA; [apply (J_irr true s1 s2 J1); reflexivity|apply (T1_setters s1 s2 (proj1 P1)); reflexivity|].
-    change (quit s1 = false). congruence.
-  - apply do_epoll_wait_Q1; [assumption|apply P1|congruence].
-Qed.
-
 Lemma epoll_process_FF : forall evs s re tm, FF s (fst (fst (epoll_process s evs re tm))).
 Proof.
   induction evs as [|[[fd bits] data] evs IH]; intros s re tm; cbn [epoll_process]; [apply FF_refl|].
@@ -146,120 +226,6 @@ Proof.
   destruct revs as [|r revs]; [apply FF_refl|]. eapply FF_trans; [apply activate_FF|apply IH].
 Qed.
 
-Lemma Q1_Q1W : forall s r, ran (mst s) = [] -> Q1 s r -> Q1W r.
-Proof. intros s r RN Q. destruct r; cbn [Q1 Q1W] in *; [|exact Q]. destruct Q as [A B]. auto. Qed.
-
-Lemma epoll_poll_Q1 : forall s abs, J true s -> T1 s -> quit s = false -> is_epoll s = true ->
-  Q1W (fst (epoll_poll sc s abs)).
-Proof.
-  intros s abs Jh T Q IE. unfold epoll_poll.
-  pose proof (J_inner_res s _ _ Jh (flush_pending_res (S (length (notify s))) s (j_fd _ _ Jh) IE)) as P.
-  pose proof (flush_pending_FF (S (length (notify s))) s) as FP.
-  destruct (epoll_flush_pending (S (length (notify s))) s) as [s1|s1].
-  2:{ cbn [fst Q1W]. apply (t1_good s1). apply (T1_F0 s s1 T). apply FF_F0. exact FP. }
-  destruct P as (J1 & F1 & E1); [intros s1' (A & B & _); split; [apply Inner_W; exact A|exact B]|].
-  assert (TS1 : T1 s1) by (apply (T1_F0 s s1 T); apply FF_F0; exact FP).
-  assert (Q1' : quit s1 = false).
-  { destruct E1 as (A & _). rewrite (sm_quit _ _ (in_same _ _ A)). exact Q. }
-  set (maxev := if method s =? M_ET then numfds s + 1 else if numfds s =? 0 then 1 else numfds s).
-  pose proof (epoll_wait_m_post sc WF s1 abs maxev J1 Q1') as W.
-  pose proof (epoll_wait_m_Q1 s1 abs maxev J1 TS1 Q1') as WQ.
-  destruct (epoll_wait_m sc s1 abs maxev) as [s2 evs|s2|r]; cbn [WPost W1] in W, WQ.
-  - destruct W as (J2 & F2 & OK2). destruct WQ as [TS3 RN2].
-    destruct (J_invalidate true s2 J2) as (J3 & F3 & _).
-    set (s3 := invalidate_now s2) in *.
-    assert (OK3 : forall ev, In ev evs -> EvOk s3 ev) by (intros ev H; exact (OK2 ev H)).
-    destruct (epoll_process_post evs s3 false false J3 OK3) as [J4 F4].
-    pose proof (epoll_process_FF evs s3 false false) as FF4.
-    destruct (epoll_process s3 evs false false) as [[s4 run_events] tmr]. cbn [fst] in J4, F4, FF4. cbn [fst].
-    assert (TS4 : T1 s4) by (apply (T1_F0 s3 s4 TS3); apply FF_F0; exact FF4).
-    assert (RN4 : ran (mst s4) = []) by (rewrite (F0_ran s3 s4 (FF_F0 _ _ FF4)); exact RN2).
-    assert (PR : Post true s4 (if tmr then match k_read (kern s4) (tfd s4) 8 with
-                                           | (k1, inl _) => R (set_kern s4 k1)
-                                           | (k1, inr _) => halt (set_kern s4 k1) TFatal
-                                           end else R s4)).
-    { destruct tmr; [|apply Post_same; assumption].
-      pose proof (ksame_read (kern s4) (tfd s4) 8) as KS.
-      destruct (k_read (kern s4) (tfd s4) 8) as [k1 [x|e]]; cbn [fst] in KS.
-      - cbn [Post]. split; [apply J_set_kern_plain; assumption|apply Fr_plain; reflexivity].
-      - cbn [Post halt]. rewrite mst_emit. apply good_quiet; [left; reflexivity|apply (j_good _ _ J4)]. }
-    assert (QR : Q1 s4 (if tmr then match k_read (kern s4) (tfd s4) 8 with
-                                           | (k1, inl _) => R (set_kern s4 k1)
-                                           | (k1, inr _) => halt (set_kern s4 k1) TFatal
-                                           end else R s4)).
-    { destruct tmr; [|apply Q1_same; assumption].
-      pose proof (ksame_read (kern s4) (tfd s4) 8) as KS.
-      destruct (k_read (kern s4) (tfd s4) 8) as [k1 [x|e]]; cbn [fst] in KS.
-      - cbn [Q1]. split; [apply T1_set_kern; assumption|apply RanF_eq; reflexivity].
-      - eapply Q1_l; [apply (RanF_eq s4 (set_kern s4 k1)); reflexivity|]. apply Q1_halt; [apply T1_set_kern; assumption|exact I]. }
-    apply (Q1_Q1W s4); [exact RN4|].
-    eapply (Q1_bind true); [exact PR|exact QR|].
-    intros s5 J5 T5. destruct run_events; [apply run_pending_events_Q1; assumption|apply Q1_same; assumption].
-  - cbn [fst Q1W]. destruct WQ as [A B]. split; [exact A|exact B].
-  - cbn [fst]. destruct r; [contradiction|exact WQ].
-Qed.
-
-Lemma do_poll_wait_Q1 : forall s call timeout, J true s -> T1 s -> quit s = false ->
-  Q1W (fst (do_poll_wait sc s call timeout)).
-Proof.
-  intros s call timeout Jh T Q. unfold do_poll_wait.
-  pose proof (wait_enter_post sc WF true s Jh) as P. pose proof (wait_enter_Q1 true s Jh T) as QE.
-  destruct (wait_enter sc s) as [s1|s1]; [|exact QE].
-  destruct P as (J1 & F1 & Q1'). destruct QE as [TS1 _].
-  set (n := nwait (kern s1)).
-  set (s2 := emit s1 (TWait n call (Z.of_nat (length (pfds s1))) timeout (interest_of_pfds (pfds s1)) (ground (kern s1)))).
-  destruct (T1_wait s1 n call (Z.of_nat (length (pfds s1))) timeout (interest_of_pfds (pfds s1)) (ground (kern s1)) TS1) as [TS2 RN2].
-  fold s2 in TS2, RN2.
-  change (kern s2) with (kern s1). change (pfds s2) with (pfds s1).
-  destruct (mem_z n (eintr_waits (flt (kern s1)))).
-  - cbn [fst Q1W].
-    destruct (Z.ltb_spec 0 timeout).
-    + set (k1 := k_set_clock (kern s2) (clock (kern s2) + timeout / 2)).
-      destruct (T1_ret s2 k1 None [] TS2) as [A B]; [cbn [k1 clock k_set_clock]; lia|].
-      split; [exact A|]. transitivity (ran (mst s2)); [exact B|exact RN2].
-    + destruct (T1_ret s2 (kern s2) None [] TS2) as [A B]; [lia|].
-      split; [exact A|]. transitivity (ran (mst s2)); [exact B|exact RN2].
-  - pose proof (poll_sleep_spec (kern s1) (pfds s1) timeout) as KS.
-    destruct (k_poll_sleep (kern s1) (pfds s1) timeout) as [k1 revs|]; cbn [fst Q1W].
-    + destruct KS as (K1 & K2 & K3).
-      destruct (T1_ret s2 k1 (Some (count_nonzero revs)) (reported_pfds (pfds s1) revs) TS2 K2) as [A B].
-      set (s3 := emit (set_kern s2 k1) _) in *.
-      pose proof (poll_activate_FF (pkeys s3) revs (invalidate_now s3)) as FA.
-      split; [apply (T1_F0 _ _ A); apply FF_F0; exact FA|].
-      rewrite (F0_ran _ _ (FF_F0 _ _ FA)). transitivity (ran (mst s2)); [exact B|exact RN2].
-    + apply T1_hang. exact TS2.
-Qed.
-
-Lemma poll_poll_Q1 : forall s abs, J true s -> T1 s -> quit s = false -> is_epoll s = false ->
-  Q1W (fst (poll_poll sc s abs)).
-Proof.
-  intros s abs Jh T Q IE. unfold poll_poll.
-  assert (VIA : forall s0, J true s0 -> T1 s0 -> quit s0 = false ->
-     Q1W (fst (let '(s1, ms) := to_msec s0 abs in do_poll_wait sc s1 2 (if ms <? 0 then -1 else ms * 1000000)))).
-  { intros s0 J0 T0 Q0. pose proof (to_msec_post true s0 abs J0) as P. pose proof (T1_to_msec s0 abs T0) as P1.
-    destruct (to_msec s0 abs) as [s1 ms]. cbn [fst] in P, P1. destruct P as (J1 & F1 & Q1').
-    apply do_poll_wait_Q1; [assumption|apply P1|congruence]. }
-  destruct (method s =? M_PP); [|apply VIA; assumption].
-  pose proof (to_relative_post true s abs Jh) as P. pose proof (method_to_relative s abs) as MR.
-  pose proof (T1_to_relative s abs T) as P1.
-  destruct (to_relative s abs) as [s1 rel]. cbn [fst] in P, MR, P1. destruct P as (J1 & F1 & Q1').
-  destruct (no_ppoll (flt (kern s1))).
-  - destruct (J_invalidate true s1 J1) as (J2 & F2 & _ & Q2).
-    assert (IE2 : is_epoll (invalidate_now s1) = false).
-    { unfold is_epoll in *. change (method (invalidate_now s1)) with (method s1). rewrite MR. exact IE. }
-    pose proof (J_set_method_poll true (invalidate_now s1) M_PO J2 IE2 eq_refl) as J3.
-    set (s3 := set_method (invalidate_now s1) M_PO) in *.
-    apply VIA; [exact J3| |change (quit (invalidate_now s1) = false); congruence].
-    apply (T1_setters (invalidate_now s1) s3); [apply T1_invalidate; apply P1|reflexivity|reflexivity].
-  - apply do_poll_wait_Q1; [assumption|apply P1|congruence].
-Qed.
-
-Lemma m_poll_Q1 : forall s abs, J true s -> T1 s -> quit s = false -> Q1W (fst (m_poll sc s abs)).
-Proof.
-  intros s abs Jh T Q. unfold m_poll. destruct (is_epoll s) eqn:IE; [apply epoll_poll_Q1|apply poll_poll_Q1]; assumption.
-Qed.
-
-(* ---------- the kernel-timer optimisation ---------- *)
 Lemma tfd_settime_F0 : forall s d, F0 s (tfd_settime s d).
 Proof.
   intros s d. unfold tfd_settime. eapply F0_trans; [apply F0_set_kern; apply ksame_settime|].
@@ -298,14 +264,493 @@ Proof.
   - destruct abs as [a|]; cbn [fst]; (eapply F0_trans; [exact A1|apply F0_plain; reflexivity]).
 Qed.
 
-Lemma poll_and_run_Q1 : forall s abs, J true s -> T1 s -> quit s = false ->
-  Q1W (fst (poll_and_run sc s abs)).
+(* ---------- plumbing for the raw-event requirement ---------- *)
+(* states that differ only in the cached time and in back-end flags *)
+Record rawsame (s s0 : core) : Prop := {
+  rs_kern : kern s0 = kern s; rs_trace : trace s0 = trace s; rs_fdt : fdt s0 = fdt s;
+  rs_pfds : pfds s0 = pfds s; rs_pkeys : pkeys s0 = pkeys s; rs_notify : notify s0 = notify s;
+  rs_rw : rw_reg s0 = rw_reg s; rs_rfd : rw_rfd s0 = rw_rfd s; rs_wfd : rw_wfd s0 = rw_wfd s;
+  rs_efd : efd_raw s0 = efd_raw s }.
+Lemma rawsame_refl : forall s, rawsame s s. Proof. intros; constructor; reflexivity. Qed.
+Lemma rawsame_trans : forall a b c, rawsame a b -> rawsame b c -> rawsame a c.
+Proof. intros a b c [] []. constructor; congruence. Qed.
+
+Definition RawE (s : core) : Prop := forall s0 s1, rawsame s s0 -> wait_enter sc s0 = R s1 -> RawQe s1.
+Definition RawP (s : core) : Prop := forall s0 s1, rawsame s s0 -> wait_enter sc s0 = R s1 -> RawQp s1.
+Definition RawEF (s : core) : Prop :=
+  forall s1, epoll_flush_pending (S (length (notify s))) s = R s1 -> RawE s1.
+Definition RawM (s : core) : Prop := if is_epoll s then RawEF s else RawP s.
+
+Lemma RawE_same : forall s s0, RawE s -> rawsame s s0 -> RawE s0.
+Proof. intros s s0 H R s1 s2 R1 E. apply (H s1 s2); [eapply rawsame_trans; eassumption|exact E]. Qed.
+Lemma RawP_same : forall s s0, RawP s -> rawsame s s0 -> RawP s0.
+Proof. intros s s0 H R s1 s2 R1 E. apply (H s1 s2); [eapply rawsame_trans; eassumption|exact E]. Qed.
+
+Lemma rawsame_validate : forall s, rawsame s (validate_now s).
+Proof. intros s. unfold validate_now. destruct (time_valid s); constructor; reflexivity. Qed.
+Lemma rawsame_to_relative : forall s abs, rawsame s (fst (to_relative s abs)).
+Proof. intros s abs. unfold to_relative. destruct abs; cbn [fst]; [apply rawsame_validate|apply rawsame_refl]. Qed.
+Lemma rawsame_to_msec : forall s abs, rawsame s (fst (to_msec s abs)).
 Proof.
-  intros s abs Jh T Q. unfold poll_and_run.
-  assert (DISP : forall r, Post0 true s r -> Q1W r ->
-            Q1W (bind r (fun s0 => dispatch_active sc (S (length (active s0))) s0))).
+  intros s abs. unfold to_msec. pose proof (rawsame_to_relative s abs) as P.
+  destruct (to_relative s abs) as [s1 [r|]]; exact P.
+Qed.
+
+(* ---------- the timeout handed to the kernel ---------- *)
+Definition AbsReq (s : core) (abs : option Z) (A : Z -> Prop) : Prop :=
+  match abs with
+  | Some a => AbsOf s = Some a /\ cur s = None /\ HeapModel.batch (heap s) = []
+  | None => forall call, SReq s call (-1) A
+  end.
+
+Lemma to_relative_shape : forall s abs,
+  fst (to_relative s abs) = (match abs with Some _ => validate_now s | None => s end) /\
+  snd (to_relative s abs) = (match abs with Some a => Some (rel_of (validate_now s) a) | None => None end).
+Proof. intros s abs. destruct abs; split; reflexivity. Qed.
+
+Lemma AbsOf_validate : forall s, AbsOf (validate_now s) = AbsOf s.
+Proof. intros s. unfold validate_now. destruct (time_valid s); reflexivity. Qed.
+
+Lemma validate_valid : forall s, time_valid (validate_now s) = true.
+Proof. intros s. unfold validate_now. destruct (time_valid s) eqn:E; [exact E|reflexivity]. Qed.
+
+Lemma SReq_validate : forall s call timeout A, SReq s call timeout A -> SReq (validate_now s) call timeout A.
+Proof.
+  intros s call timeout A R. unfold validate_now. destruct (time_valid s); [exact R|].
+  apply (SReq_keep s _ call timeout A R); try reflexivity. intros H. split; [exact H|reflexivity].
+Qed.
+
+(* requirement for the call made by the wait functions, from the loop's abs *)
+Lemma AbsReq_SReq : forall s abs A call, J true s -> T1 s -> AbsReq s abs A ->
+  let s1 := fst (to_relative s abs) in
+  let rel := snd (to_relative s abs) in
+  SReq s1 call (match rel with Some r => ns_of call r | None => -1 end) A.
+Proof.
+  intros s abs A call Jh T RA. destruct abs as [a|]; cbn [to_relative fst snd].
+  - destruct RA as (AO & C & B).
+    destruct (J_validate true s Jh) as (J1 & _ & _ & _).
+    pose proof (T1_validate s T) as TS1.
+    pose proof (SReq_of_abs (validate_now s) call J1 TS1) as Q.
+    rewrite AbsOf_validate, AO in Q.
+    apply (SReq_weaken _ _ _ (fun _ => False)); [intros D []|].
+    apply Q; [unfold validate_now; destruct (time_valid s); exact C|unfold validate_now; destruct (time_valid s); exact B|].
+    intros _. apply validate_valid.
+  - apply RA.
+Qed.
+
+Lemma epoll_wait_m_Q1 : forall s abs maxev A, J true s -> T1 s -> quit s = false -> InvW s ->
+  1 <= maxev -> AbsReq s abs A -> (forall D, A D -> ArmedT s D) -> RawE s ->
+  W1 s (epoll_wait_m sc s abs maxev).
+Proof.
+  intros s abs maxev A Jh T Q IW MX RA AR HR. unfold epoll_wait_m.
+  (* the state after to_relative, shared by all paths *)
+  pose proof (to_relative_post true s abs Jh) as P. pose proof (T1_to_relative s abs T) as P1.
+  pose proof (rawsame_to_relative s abs) as RS.
+  destruct (to_relative_shape s abs) as [SH1 SH2].
+  assert (IW1 : InvW (fst (to_relative s abs))).
+  { rewrite SH1. destruct abs; [apply InvW_validate; exact IW|exact IW]. }
+  assert (TF1 : TFs s (fst (to_relative s abs))).
+  { rewrite SH1. destruct abs; [|apply TFs_refl]. unfold validate_now. destruct (time_valid s); apply TFs_plain; reflexivity. }
+  assert (BF1 : BatchF s (fst (to_relative s abs))).
+  { rewrite SH1. destruct abs; [|intros H; exact H]. unfold validate_now. destruct (time_valid s); intros H; exact H. }
+  assert (VIA : forall s0, (s0 = s \/ s0 = set_epoll s (epfd s) (tfd s) false) ->
+     W1 s (let '(s1, ms) := to_msec s0 abs in do_epoll_wait sc s1 0 maxev (if ms <? 0 then -1 else ms * 1000000))).
+  { intros s0 S0.
+    assert (K0 : J true s0 /\ T1 s0 /\ InvW s0 /\ quit s0 = false /\ AbsReq s0 abs A /\ (forall D, A D -> ArmedT s0 D) /\
+                 rawsame s s0 /\ BatchF s s0).
+    { destruct S0 as [-> | ->]; [split; [exact Jh|split; [exact T|split; [exact IW|split; [exact Q|split; [exact RA|split; [exact AR|split; [apply rawsame_refl|intros H; exact H]]]]]]]|].
+      split; [apply (J_irr true s _ Jh); reflexivity|]. split; [apply (T1_setters s _ T); reflexivity|].
+      split; [apply (InvW_coresame s); [constructor; reflexivity|apply (ms_nobad _ (iw_misc _ IW))|exact IW]|].
+      split; [exact Q|]. split; [|split; [intros D H; exact (AR D H)|split; [constructor; reflexivity|intros H; exact H]]].
+      destruct abs; [exact RA|]. intros call. apply (SReq_keep s _ call (-1) A (RA call)); try reflexivity.
+      intros H. split; [exact H|reflexivity]. }
+    destruct K0 as (J0 & T0 & I0 & Q0 & RA0 & AR0 & RS0 & BF0).
+    unfold to_msec.
+    pose proof (to_relative_post true s0 abs J0) as P0. pose proof (T1_to_relative s0 abs T0) as P01.
+    pose proof (rawsame_to_relative s0 abs) as RS01. pose proof (AbsReq_SReq s0 abs A 0 J0 T0 RA0) as SR0. cbv zeta in SR0.
+    destruct (to_relative_shape s0 abs) as [SH01 SH02].
+    assert (IW01 : InvW (fst (to_relative s0 abs))).
+    { rewrite SH01. destruct abs; [apply InvW_validate; exact I0|exact I0]. }
+    assert (TF01 : TFs s0 (fst (to_relative s0 abs))).
+    { rewrite SH01. destruct abs; [|apply TFs_refl]. unfold validate_now. destruct (time_valid s0); apply TFs_plain; reflexivity. }
+    assert (BF01 : BatchF s0 (fst (to_relative s0 abs))).
+    { rewrite SH01. destruct abs; [|intros H; exact H]. unfold validate_now. destruct (time_valid s0); intros H; exact H. }
+    destruct (to_relative s0 abs) as [s1 rel]. cbn [fst snd] in *. destruct P0 as (J1 & F1 & Q1').
+    apply (W1_l s s1); [intros H; apply BF01; apply BF0; exact H|].
+    destruct rel as [r|].
+    - assert (MS : msec_of_rel r <? 0 = false).
+      { apply Z.ltb_ge. apply msec_nonneg. destruct abs as [a|]; [|discriminate SH02]. inversion SH02.
+        unfold rel_of. destruct (Z.ltb_spec (time (validate_now s0)) a); lia. }
+      rewrite MS. change (msec_of_rel r * 1000000) with (ns_of 0 r).
+      apply (do_epoll_wait_Q1 s1 0 maxev (ns_of 0 r) A); try assumption; [apply P01|congruence| |].
+      + intros D H. eapply ArmedT_TFs; [apply AR0; exact H|exact TF01].
+      + intros s2 E. apply (HR s1 s2); [eapply rawsame_trans; eassumption|exact E].
+    - change (-1 <? 0) with true. cbv iota.
+      apply (do_epoll_wait_Q1 s1 0 maxev (-1) A); try assumption; [apply P01|congruence| |].
+      + intros D H. eapply ArmedT_TFs; [apply AR0; exact H|exact TF01].
+      + intros s2 E. apply (HR s1 s2); [eapply rawsame_trans; eassumption|exact E]. }
+  destruct (pwait2 s); [|apply VIA; left; reflexivity].
+  pose proof (AbsReq_SReq s abs A 1 Jh T RA) as SR. cbv zeta in SR.
+  destruct (to_relative s abs) as [s1 rel]. cbn [fst snd] in *. destruct P as (J1 & F1 & Q1').
+  destruct (no_pwait2 (flt (kern s1)) || perm_pwait2 (flt (kern s1))).
+  - (* fall back to epoll_wait: to_relative is recomputed from the same abs *)
+    assert (E1 : s1 = match abs with Some _ => validate_now s | None => s end) by exact SH1.
+    set (s2 := set_epoll s1 (epfd s1) (tfd s1) false).
+    (* s2 is s1 with the flag cleared; redo the argument from s1 *)
+    assert (K2 : J true s2 /\ T1 s2 /\ InvW s2 /\ quit s2 = false /\ AbsReq s2 abs A /\ (forall D, A D -> ArmedT s2 D) /\
+                 rawsame s s2 /\ BatchF s s2).
+    { split; [apply (J_irr true s1 s2 J1); reflexivity|]. split; [apply (T1_setters s1 s2 (proj1 P1)); reflexivity|].
+      split; [apply (InvW_coresame s1); [constructor; reflexivity|apply (ms_nobad _ (iw_misc _ IW1))|exact IW1]|].
+      split; [change (quit s1 = false); congruence|].
+      split; [|split; [intros D H; apply (ArmedT_TFs s1 s2 D); [eapply ArmedT_TFs; [apply AR; exact H|exact TF1]|apply TFs_plain; reflexivity]|
+               split; [eapply rawsame_trans; [exact RS|constructor; reflexivity]|intros H; apply BF1; exact H]]].
+      destruct abs as [a|]; cbn [AbsReq] in *.
+      - destruct RA as (AO & C & B). unfold s2. change (AbsOf (set_epoll s1 (epfd s1) (tfd s1) false)) with (AbsOf s1).
+        cbn [cur heap set_epoll]. rewrite E1, AbsOf_validate.
+        split; [exact AO|]. unfold validate_now. destruct (time_valid s); split; assumption.
+      - unfold s2. rewrite E1. intros call. apply (SReq_keep s _ call (-1) A (RA call)); try reflexivity.
+        intros H. split; [exact H|reflexivity]. }
+    destruct K2 as (J2 & T2 & I2 & Q2 & RA2 & AR2 & RS2 & BF2).
+    unfold to_msec.
+    pose proof (to_relative_post true s2 abs J2) as P0. pose proof (T1_to_relative s2 abs T2) as P01.
+    pose proof (rawsame_to_relative s2 abs) as RS01. pose proof (AbsReq_SReq s2 abs A 0 J2 T2 RA2) as SR0. cbv zeta in SR0.
+    destruct (to_relative_shape s2 abs) as [SH01 SH02].
+    assert (IW01 : InvW (fst (to_relative s2 abs))).
+    { rewrite SH01. destruct abs; [apply InvW_validate; exact I2|exact I2]. }
+    assert (TF01 : TFs s2 (fst (to_relative s2 abs))).
+    { rewrite SH01. destruct abs; [|apply TFs_refl]. unfold validate_now. destruct (time_valid s2); apply TFs_plain; reflexivity. }
+    assert (BF01 : BatchF s2 (fst (to_relative s2 abs))).
+    { rewrite SH01. destruct abs; [|intros H; exact H]. unfold validate_now. destruct (time_valid s2); intros H; exact H. }
+    destruct (to_relative s2 abs) as [s3 rel3]. cbn [fst snd] in *. destruct P0 as (J3 & F3 & Q3').
+    apply (W1_l s s3); [intros H; apply BF01; apply BF2; exact H|].
+    destruct rel3 as [r|].
+    + assert (MS : msec_of_rel r <? 0 = false).
+      { apply Z.ltb_ge. apply msec_nonneg. destruct abs as [a|]; [|discriminate SH02]. inversion SH02.
+        unfold rel_of. destruct (Z.ltb_spec (time (validate_now s2)) a); lia. }
+      rewrite MS. change (msec_of_rel r * 1000000) with (ns_of 0 r).
+      apply (do_epoll_wait_Q1 s3 0 maxev (ns_of 0 r) A); try assumption; [apply P01|congruence| |].
+      * intros D H. eapply ArmedT_TFs; [apply AR2; exact H|exact TF01].
+      * intros s4 E. apply (HR s3 s4); [eapply rawsame_trans; eassumption|exact E].
+    + change (-1 <? 0) with true. cbv iota.
+      apply (do_epoll_wait_Q1 s3 0 maxev (-1) A); try assumption; [apply P01|congruence| |].
+      * intros D H. eapply ArmedT_TFs; [apply AR2; exact H|exact TF01].
+      * intros s4 E. apply (HR s3 s4); [eapply rawsame_trans; eassumption|exact E].
+  - apply (W1_l s s1); [exact BF1|].
+    assert (TO : match rel with Some r => r | None => -1 end = match rel with Some r => ns_of 1 r | None => -1 end).
+    { destruct rel; reflexivity. }
+    rewrite TO.
+    apply (do_epoll_wait_Q1 s1 1 maxev _ A); try assumption; [apply P1|congruence| |].
+    + intros D H. eapply ArmedT_TFs; [apply AR; exact H|exact TF1].
+    + intros s2 E. apply (HR s1 s2); [exact RS|exact E].
+Qed.
+
+Lemma Q1_Q1W : forall s r, ran (mst s) = [] -> Q1 s r -> Q1W s r.
+Proof.
+  intros s r RN Q. destruct r; cbn [Q1 Q1W] in *; [|exact Q]. destruct Q as [A [B C]].
+  split; [exact A|split; [apply B; exact RN|exact C]].
+Qed.
+
+Lemma AbsReq_F0 : forall s s' abs A, AbsReq s abs A -> F0 s s' -> AbsReq s' abs A.
+Proof.
+  intros s s' abs A RA F. destruct abs as [a|]; cbn [AbsReq] in *.
+  - destruct F as [L _]. destruct (lf_fields _ _ L) as (E1 & _ & _ & E4 & E5 & _).
+    unfold AbsOf, soonest_timeout in *. rewrite E1, E4, E5. exact RA.
+  - intros call. eapply SReq_F0; [apply RA|exact F].
+Qed.
+
+Lemma maxev_pos : forall s, InvW s -> 1 <= (if method s =? M_ET then numfds s + 1 else if numfds s =? 0 then 1 else numfds s).
+Proof.
+  intros s IW. pose proof (ac_numfds _ (iw_acct _ IW)) as N.
+  pose proof (cntf_nonneg (fun k => registered (fdt s k)) (zseq 0 33)) as P. rewrite <- N in P.
+  destruct (method s =? M_ET); [lia|]. destruct (Z.eqb_spec (numfds s) 0); lia.
+Qed.
+
+Lemma epoll_poll_Q1 : forall s abs A, J true s -> T1 s -> quit s = false -> is_epoll s = true -> InvW s ->
+  AbsReq s abs A -> (forall D, A D -> ArmedT s D) -> RawEF s ->
+  Q1W s (fst (epoll_poll sc s abs)).
+Proof.
+  intros s abs A Jh T Q IE IW RA AR HR. unfold epoll_poll.
+  pose proof (J_inner_res s _ _ Jh (flush_pending_res (S (length (notify s))) s (j_fd _ _ Jh) IE)) as P.
+  pose proof (flush_pending_FF (S (length (notify s))) s) as FP.
+  destruct (flush_pending_K s IW IE) as (s1 & EF & IW1 & TF1 & NF1 & _).
+  specialize (HR s1 EF). rewrite EF in *.
+  destruct P as (J1 & F1 & E1); [intros s1' (X & Y & _); split; [apply Inner_W; exact X|exact Y]|].
+  unfold FFr in FP. cbn [res_state] in FP.
+  assert (TS1 : T1 s1) by (apply (T1_F0 s s1 T); apply FF_F0; exact FP).
+  assert (BF1 : BatchF s s1) by (intros H; rewrite (F0_heap _ _ (FF_F0 _ _ FP)); exact H).
+  assert (Q1' : quit s1 = false).
+  { destruct E1 as (X & _). rewrite (sm_quit _ _ (in_same _ _ X)). exact Q. }
+  set (maxev := if method s =? M_ET then numfds s + 1 else if numfds s =? 0 then 1 else numfds s).
+  assert (MX : 1 <= maxev) by (apply maxev_pos; exact IW).
+  pose proof (epoll_wait_m_post sc WF s1 abs maxev J1 Q1') as W.
+  pose proof (epoll_wait_m_Q1 s1 abs maxev A J1 TS1 Q1' IW1 MX (AbsReq_F0 _ _ _ _ RA (FF_F0 _ _ FP))
+                (fun D H => ArmedT_TFs _ _ _ (AR D H) TF1) HR) as WQ.
+  apply (Q1W_l s s1 _ BF1).
+  destruct (epoll_wait_m sc s1 abs maxev) as [s2 evs|s2|r]; cbn [WPost W1] in W, WQ.
+  - destruct W as (J2 & F2 & OK2). destruct WQ as (TS3 & RN2 & BF2).
+    destruct (J_invalidate true s2 J2) as (J3 & F3 & _).
+    set (s3 := invalidate_now s2) in *.
+    assert (OK3 : forall ev, In ev evs -> EvOk s3 ev) by (intros ev H; exact (OK2 ev H)).
+    destruct (epoll_process_post evs s3 false false J3 OK3) as [J4 F4].
+    pose proof (epoll_process_FF evs s3 false false) as FF4.
+    destruct (epoll_process s3 evs false false) as [[s4 run_events] tmr]. cbn [fst] in J4, F4, FF4. cbn [fst].
+    assert (TS4 : T1 s4) by (apply (T1_F0 s3 s4 TS3); apply FF_F0; exact FF4).
+    assert (RN4 : ran (mst s4) = []) by (rewrite (F0_ran s3 s4 (FF_F0 _ _ FF4)); exact RN2).
+    assert (BF4 : BatchF s1 s4) by (intros H; rewrite (F0_heap _ _ (FF_F0 _ _ FF4)); apply BF2; exact H).
+    assert (PR : Post true s4 (if tmr then match k_read (kern s4) (tfd s4) 8 with
+                                           | (k1, inl _) => R (set_kern s4 k1)
+                                           | (k1, inr _) => halt (set_kern s4 k1) TFatal
+                                           end else R s4)).
+    { destruct tmr; [|apply Post_same; assumption].
+      pose proof (ksame_read (kern s4) (tfd s4) 8) as KS.
+      destruct (k_read (kern s4) (tfd s4) 8) as [k1 [x|e]]; cbn [fst] in KS.
+      - cbn [Post]. split; [apply J_set_kern_plain; assumption|apply Fr_plain; reflexivity].
+      - cbn [Post halt]. rewrite mst_emit. apply good_quiet; [left; reflexivity|apply (j_good _ _ J4)]. }
+    assert (QR : Q1 s4 (if tmr then match k_read (kern s4) (tfd s4) 8 with
+                                           | (k1, inl _) => R (set_kern s4 k1)
+                                           | (k1, inr _) => halt (set_kern s4 k1) TFatal
+                                           end else R s4)).
+    { destruct tmr; [|apply Q1_same; assumption].
+      pose proof (ksame_read (kern s4) (tfd s4) 8) as KS.
+      destruct (k_read (kern s4) (tfd s4) 8) as [k1 [x|e]]; cbn [fst] in KS.
+      - cbn [Q1]. split; [apply T1_set_kern; assumption|apply RanF_eq; reflexivity].
+      - eapply Q1_l; [apply (RanF_eq s4 (set_kern s4 k1)); reflexivity|]. apply Q1_halt; [apply T1_set_kern; assumption|exact I]. }
+    apply (Q1W_l s1 s4 _ BF4). apply (Q1_Q1W s4); [exact RN4|].
+    eapply (Q1_bind true); [exact PR|exact QR|].
+    intros s5 J5 T5. destruct run_events; [apply run_pending_events_Q1; assumption|apply Q1_same; assumption].
+  - cbn [fst Q1W]. destruct WQ as (X & Y & Z). split; [exact X|split; [exact Y|exact Z]].
+  - cbn [fst]. destruct r; [contradiction|exact WQ].
+Qed.
+
+Lemma do_poll_wait_Q1 : forall s call timeout, J true s -> T1 s -> quit s = false -> InvW s ->
+  SReq s call timeout (fun _ => False) -> RawP s ->
+  Q1W s (fst (do_poll_wait sc s call timeout)).
+Proof.
+  intros s call timeout Jh T Q IW RQ HR. unfold do_poll_wait.
+  pose proof (wait_enter_post sc WF true s Jh) as P. pose proof (wait_enter_Q1 true s Jh T) as QE.
+  pose proof (wait_enter_WFr sc s) as WE. specialize (HR s).
+  destruct (wait_enter sc s) as [s1|s1]; [|exact QE].
+  destruct P as (J1 & F1 & Q1'). destruct QE as [TS1 [_ BF1]].
+  specialize (WE s1 WF eq_refl). specialize (HR s1 (rawsame_refl s) eq_refl).
+  set (n := nwait (kern s1)).
+  set (ev := TWait n call (Z.of_nat (length (pfds s1))) timeout (interest_of_pfds (pfds s1)) (ground (kern s1))).
+  set (s2 := emit s1 ev).
+  destruct (T1_wait s1 n call (Z.of_nat (length (pfds s1))) timeout (interest_of_pfds (pfds s1)) (ground (kern s1)) TS1) as [TS2 RN2].
+  fold ev s2 in TS2, RN2.
+  assert (J2 : J true s2) by (apply J_wait_event; [assumption|congruence]).
+  assert (BF2 : BatchF s s2) by (intros H; apply BF1; exact H).
+  change (kern s2) with (kern s1). change (pfds s2) with (pfds s1).
+  destruct (mem_z n (eintr_waits (flt (kern s1)))).
+  - cbn [fst Q1W].
+    destruct (Z.ltb_spec 0 timeout).
+    + set (k1 := k_set_clock (kern s2) (clock (kern s2) + timeout / 2)).
+      destruct (T1_ret s2 k1 None [] TS2) as [X Y]; [cbn [k1 clock k_set_clock]; lia|apply G1_ret_none; apply (t1_good _ TS2)|].
+      split; [exact X|]. split; [transitivity (ran (mst s2)); [exact Y|exact RN2]|exact BF2].
+    + destruct (T1_ret s2 (kern s2) None [] TS2) as [X Y]; [lia|apply G1_ret_none; apply (t1_good _ TS2)|].
+      split; [exact X|]. split; [transitivity (ran (mst s2)); [exact Y|exact RN2]|exact BF2].
+  - assert (RQ2 : SReq s2 call timeout (fun _ => False)).
+    { apply (SReq_keep s1 s2); [apply (SReq_WFr s s1); assumption|reflexivity|reflexivity|change (kern s2) with (kern s1); lia|].
+      change (mst s2) with (mst (emit s1 ev)). rewrite mst_emit. unfold ev. rewrite a_stale_step. auto. }
+    assert (WC2 : w_call (mst s2) = call) by (change (mst s2) with (mst (emit s1 ev)); rewrite mst_emit; apply w_call_TWait).
+    assert (RW2 : RawQp s2).
+    { intros j JR A1 A2. change (mst s2) with (mst (emit s1 ev)) in A1, A2. rewrite mst_emit in A1, A2.
+      unfold ev in A2. rewrite a_rwp_step in A2.
+      assert (V : mview (mon_step (mst s1) ev) = mview (mst s1)) by apply mview_TWait.
+      assert (E : a_rw (mon_step (mst s1) ev) = a_rw (mst s1)) by (change (a_rw (mview (mon_step (mst s1) ev)) = a_rw (mst s1)); rewrite V; reflexivity).
+      rewrite E in A1. apply (HR j JR A1 A2). }
+    pose proof (poll_sleep_spec (kern s1) (pfds s1) timeout) as KS.
+    assert (KB : forall D, KSBa (kern s1) timeout (fun _ => False) D ->
+              match k_poll_sleep (kern s1) (pfds s1) timeout with
+              | PReady k1 _ => clock (kern s1) <= clock k1 <= Z.max (clock (kern s1)) D
+              | PHang => False end).
+    { intros D [[TP ->]|[]]. pose proof (poll_sleep_bound (kern s1) (pfds s1) timeout TP) as B.
+      destruct (k_poll_sleep (kern s1) (pfds s1) timeout); [lia|exact B]. }
+    assert (KR : (exists p, In p (pfds s1) /\ poll_revents (kern s1) (fst p) (snd p) <> 0) ->
+              match k_poll_sleep (kern s1) (pfds s1) timeout with
+              | PReady k1 _ => clock k1 = clock (kern s1) | PHang => False end).
+    { intros H. apply poll_sleep_ready; assumption. }
+    destruct (k_poll_sleep (kern s1) (pfds s1) timeout) as [k1 revs|]; cbn [fst Q1W].
+    + destruct KS as (K1 & K2 & K3).
+      assert (GR : G1 (mon_step (mst s2) (TRet (Some (count_nonzero revs)) (reported_pfds (pfds s1) revs) (clock k1)))).
+      { destruct (SReq_ret s2 call timeout (fun _ => False) (clock k1) J2 RQ2 WC2) as [C602 C04].
+        { intros D SB. specialize (KB D SB). change (kern s2) with (kern s1). lia. }
+        apply G1_TRet_some; [apply (t1_good _ TS2)|exact C602| |exact C04].
+        intros SL. apply raw_quiet. intros j JR A1 A2. specialize (KR (RW2 j JR A1 A2)).
+        rewrite (ag_clk _ _ (j_ag _ _ J2)) in SL. change (kern s2) with (kern s1) in SL. lia. }
+      destruct (T1_ret s2 k1 (Some (count_nonzero revs)) (reported_pfds (pfds s1) revs) TS2 K2 GR) as [X Y].
+      set (s3 := emit (set_kern s2 k1) _) in *.
+      pose proof (poll_activate_FF (pkeys s3) revs (invalidate_now s3)) as FA.
+      split; [apply (T1_F0 _ _ X); apply FF_F0; exact FA|].
+      split; [rewrite (F0_ran _ _ (FF_F0 _ _ FA)); transitivity (ran (mst s2)); [exact Y|exact RN2]|].
+      intros H. rewrite (F0_heap _ _ (FF_F0 _ _ FA)). apply BF2. exact H.
+    + unfold halt. cbn [fst Q1W]. rewrite mst_emit.
+      destruct (SReq_hang s2 call timeout (fun _ => False) J2 RQ2) as [H1 H2]; [intros D SB; exact (KB D SB)|].
+      apply G1_THang; [apply (t1_good _ TS2)|exact H1|exact H2|].
+      apply raw_quiet. intros j JR A1 A2. exact (KR (RW2 j JR A1 A2)).
+Qed.
+
+Lemma rawsame_poll_fallback : forall s, rawsame s (set_method (invalidate_now s) M_PO).
+Proof. intros; constructor; reflexivity. Qed.
+
+Lemma poll_poll_Q1 : forall s abs, J true s -> T1 s -> quit s = false -> is_epoll s = false -> InvW s ->
+  AbsReq s abs (fun _ => False) -> RawP s ->
+  Q1W s (fst (poll_poll sc s abs)).
+Proof.
+  intros s abs Jh T Q IE IW RA HR. unfold poll_poll.
+  assert (VIA : forall s0, J true s0 -> T1 s0 -> quit s0 = false -> InvW s0 -> AbsReq s0 abs (fun _ => False) -> RawP s0 ->
+     Q1W s0 (fst (let '(s1, ms) := to_msec s0 abs in do_poll_wait sc s1 2 (if ms <? 0 then -1 else ms * 1000000)))).
+  { intros s0 J0 T0 Q0 I0 RA0 HR0. unfold to_msec.
+    pose proof (to_relative_post true s0 abs J0) as P0. pose proof (T1_to_relative s0 abs T0) as P01.
+    pose proof (rawsame_to_relative s0 abs) as RS01. pose proof (AbsReq_SReq s0 abs _ 2 J0 T0 RA0) as SR0. cbv zeta in SR0.
+    destruct (to_relative_shape s0 abs) as [SH01 SH02].
+    assert (IW01 : InvW (fst (to_relative s0 abs))).
+    { rewrite SH01. destruct abs; [apply InvW_validate; exact I0|exact I0]. }
+    assert (BF01 : BatchF s0 (fst (to_relative s0 abs))).
+    { rewrite SH01. destruct abs; [|intros H; exact H]. unfold validate_now. destruct (time_valid s0); intros H; exact H. }
+    destruct (to_relative s0 abs) as [s1 rel]. cbn [fst snd] in *. destruct P0 as (J1 & F1 & Q1').
+    apply (Q1W_l s0 s1 _ BF01).
+    destruct rel as [r|].
+    - assert (MS : msec_of_rel r <? 0 = false).
+      { apply Z.ltb_ge. apply msec_nonneg. destruct abs as [a|]; [|discriminate SH02]. inversion SH02.
+        unfold rel_of. destruct (Z.ltb_spec (time (validate_now s0)) a); lia. }
+      rewrite MS. change (msec_of_rel r * 1000000) with (ns_of 2 r).
+      apply do_poll_wait_Q1; try assumption; [apply P01|congruence|eapply RawP_same; eassumption].
+    - change (-1 <? 0) with true. cbv iota.
+      apply do_poll_wait_Q1; try assumption; [apply P01|congruence|eapply RawP_same; eassumption]. }
+  destruct (method s =? M_PP) eqn:MP; [|apply VIA; assumption].
+  pose proof (to_relative_post true s abs Jh) as P. pose proof (method_to_relative s abs) as MR.
+  pose proof (T1_to_relative s abs T) as P1. pose proof (rawsame_to_relative s abs) as RS.
+  pose proof (AbsReq_SReq s abs _ 3 Jh T RA) as SR. cbv zeta in SR.
+  destruct (to_relative_shape s abs) as [SH1 SH2].
+  assert (IW1 : InvW (fst (to_relative s abs))).
+  { rewrite SH1. destruct abs; [apply InvW_validate; exact IW|exact IW]. }
+  assert (BF1 : BatchF s (fst (to_relative s abs))).
+  { rewrite SH1. destruct abs; [|intros H; exact H]. unfold validate_now. destruct (time_valid s); intros H; exact H. }
+  destruct (to_relative s abs) as [s1 rel]. cbn [fst snd] in *. destruct P as (J1 & F1 & Q1').
+  apply (Q1W_l s s1 _ BF1).
+  destruct (no_ppoll (flt (kern s1))).
+  - destruct (J_invalidate true s1 J1) as (J2 & F2 & _ & Q2).
+    assert (IE2 : is_epoll (invalidate_now s1) = false).
+    { unfold is_epoll in *. change (method (invalidate_now s1)) with (method s1). rewrite MR. exact IE. }
+    pose proof (J_set_method_poll true (invalidate_now s1) M_PO J2 IE2 eq_refl) as J3.
+    set (s3 := set_method (invalidate_now s1) M_PO) in *.
+    assert (TS3 : T1 s3) by (apply (T1_setters (invalidate_now s1) s3); [apply T1_invalidate; apply P1|reflexivity|reflexivity]).
+    assert (IW3 : InvW s3).
+    { apply InvW_set_method; [apply InvW_invalidate; exact IW1| |unfold M_PO; lia].
+      unfold is_epoll. cbn [method set_method invalidate_now set_time].
+      apply Z.eqb_eq in MP. rewrite MR, MP. reflexivity. }
+    assert (RA3 : AbsReq s3 abs (fun _ => False)).
+    { destruct abs as [a|]; cbn [AbsReq] in *.
+      - destruct RA as (AO & C & B). unfold s3. change (AbsOf (set_method (invalidate_now s1) M_PO)) with (AbsOf s1).
+        cbn [cur heap set_method invalidate_now set_time].
+        rewrite SH1, AbsOf_validate. split; [exact AO|]. unfold validate_now. destruct (time_valid s); split; assumption.
+      - intros call. unfold s3. rewrite SH1. apply (SReq_keep s _ call (-1) _ (RA call)); try reflexivity.
+        intros H. split; [exact H|reflexivity]. }
+    apply (Q1W_l s1 s3); [intros H; exact H|].
+    apply VIA; try assumption; [change (quit (invalidate_now s1) = false); congruence|].
+    eapply RawP_same; [exact HR|]. eapply rawsame_trans; [exact RS|apply rawsame_poll_fallback].
+  - assert (TO : match rel with Some r => r | None => -1 end = match rel with Some r => ns_of 3 r | None => -1 end).
+    { destruct rel; reflexivity. }
+    rewrite TO. apply do_poll_wait_Q1; try assumption; [apply P1|congruence|eapply RawP_same; eassumption].
+Qed.
+
+Lemma m_poll_Q1 : forall s abs A, J true s -> T1 s -> quit s = false -> InvW s ->
+  AbsReq s abs A -> (forall D, A D -> ArmedT s D) -> (is_epoll s = false -> forall D, ~ A D) -> RawM s ->
+  Q1W s (fst (m_poll sc s abs)).
+Proof.
+  intros s abs A Jh T Q IW RA AR NA HR. unfold m_poll, RawM in *. destruct (is_epoll s) eqn:IE.
+  - apply (epoll_poll_Q1 s abs A); assumption.
+  - apply poll_poll_Q1; try assumption.
+    destruct abs as [a|]; cbn [AbsReq] in *; [exact RA|].
+    intros call. apply (SReq_weaken _ _ _ A); [intros D H; exact (NA eq_refl D H)|apply RA].
+Qed.
+
+(* ---------- the kernel-timer optimisation ---------- *)
+Lemma lk_fields : forall s s', lk s' = lk s ->
+  tfd s' = tfd s /\ last_abs s' = last_abs s /\ last_abs_count s' = last_abs_count s /\ method s' = method s.
+Proof. intros s s' H. unfold lk in H. inversion H. repeat split; assumption. Qed.
+
+Lemma set_poll_timeout_true : forall s a s0, set_poll_timeout s a = (R s0, true) ->
+  method s0 = method s /\ last_abs s0 = last_abs s /\ last_abs_count s0 = last_abs_count s.
+Proof.
+  intros s a s0. unfold set_poll_timeout.
+  destruct (tfd s =? -1).
+  - destruct (k_timerfd_create (kern s)) as [k1 [fd|e]].
+    + set (s1 := set_epoll (set_kern s k1) (epfd s) fd (pwait2 s)).
+      destruct (ctl_retry s1 CTL_ADD fd B_IN (-2)) as [s2 r] eqn:CT.
+      destruct (ctl_retry_FF _ _ _ _ _ _ _ CT) as (_ & LK2 & _). destruct (lk_fields _ _ LK2) as (_ & A & B & C).
+      destruct r; intros E; inversion E; subst. cbn [method last_abs last_abs_count tfd_settime emit set_trace set_kern].
+      rewrite A, B, C. repeat split.
+    + intros E; inversion E.
+  - intros E; inversion E; subst. repeat split.
+Qed.
+
+Lemma timeout_check_true : forall s abs s0, timeout_check s abs = (R s0, true) -> method s = M_ET ->
+  method s0 = M_ET /\ last_abs_count s0 = 5 /\ 0 <= abs_cmp abs (last_abs s0).
+Proof.
+  intros s abs s0. unfold timeout_check.
+  destruct ((last_abs_count s =? 5) && (0 <=? abs_cmp abs (last_abs s))) eqn:G.
+  { intros E M; inversion E; subst. apply andb_true_iff in G. destruct G as [G1' G2]. apply Z.eqb_eq in G1'. apply Z.leb_le in G2. auto. }
+  set (s1 := if last_abs_count s =? 5 then tfd_settime s 0 else s).
+  assert (F1 : method s1 = method s /\ last_abs s1 = last_abs s /\ last_abs_count s1 = last_abs_count s)
+    by (unfold s1; destruct (last_abs_count s =? 5); repeat split).
+  destruct F1 as (M1 & L1 & C1).
+  destruct (Z.eqb_spec (abs_cmp abs (last_abs s)) 0) as [CZ|CN].
+  - set (s2 := if last_abs_count s1 <? 5 then set_last_abs s1 (last_abs s1) (last_abs_count s1 + 1) else s1).
+    assert (F2 : method s2 = method s /\ last_abs s2 = last_abs s)
+      by (unfold s2; destruct (last_abs_count s1 <? 5); cbn [method last_abs set_last_abs]; split; congruence).
+    destruct F2 as (M2 & L2).
+    destruct (Z.eqb_spec (last_abs_count s2) 5) as [C5|C5]; [|intros E; inversion E].
+    destruct abs as [a|]; [|intros E; inversion E].
+    intros E M. destruct (set_poll_timeout_true _ _ _ E) as (A & B & C).
+    rewrite A, B, C, M2, L2, CZ. repeat split; [exact M|exact C5|lia].
+  - destruct abs as [a|]; intros E; inversion E.
+Qed.
+
+Lemma abs_cmp_ge : forall a l, 0 <= abs_cmp (Some a) l -> l <= a.
+Proof. intros a l. unfold abs_cmp. destruct (Z.ltb_spec a l); [lia|]. intros _. lia. Qed.
+
+(* the raw-event requirement for iv_fd_poll_and_run *)
+Definition RawPR (s : core) (abs : option Z) : Prop :=
+  if method s =? M_ET then (forall s0 fl, timeout_check s abs = (R s0, fl) -> RawM s0) else RawM s.
+
+Lemma AbsReq_plain : forall s, J true s -> T1 s -> cur s = None -> HeapModel.batch (heap s) = [] ->
+  AbsReq s (AbsOf s) (fun _ => False).
+Proof.
+  intros s Jh T C B. destruct (AbsOf s) as [a|] eqn:AO; cbn [AbsReq]; [auto|].
+  intros call. pose proof (SReq_of_abs s call Jh T C B) as Q. rewrite AO in Q. apply Q. intros H. congruence.
+Qed.
+
+(* the unbounded wait behind an armed kernel timer *)
+Lemma AbsReq_armed : forall s, J true s -> T1 s -> cur s = None -> HeapModel.batch (heap s) = [] ->
+  0 <= abs_cmp (AbsOf s) (last_abs s) ->
+  AbsReq s None (fun D => D = dd (last_abs s)).
+Proof.
+  intros s Jh T C B CMP. cbn [AbsReq]. intros call. destruct (J_SiTm _ _ Jh) as [HI _].
+  destruct (t1_stale _ T) as (_ & CP & _).
+  assert (DD0 : last_abs s <= 0 -> dd (last_abs s) <= clock (kern s)).
+  { intros H. unfold dd. destruct (Z.eqb_spec (last_abs s) 0); lia. }
+  constructor.
+  - intros k K R. exists (dd (last_abs s)). split; [right; reflexivity|]. apply DD0.
+    pose proof (task_reg_tasks s k C R) as NE. unfold AbsOf in CMP. destruct (tasks s); [contradiction|].
+    apply abs_cmp_ge in CMP. exact CMP.
+  - intros j JR R. exists (dd (last_abs s)). split; [right; reflexivity|]. intros _.
+    destruct (soonest_min s j HI B R) as (a & SO & LE).
+    unfold AbsOf in CMP. destruct (tasks s).
+    + rewrite SO in CMP. apply abs_cmp_ge in CMP. unfold dd. destruct (Z.eqb_spec (last_abs s) 0) as [Z0|NZ]; [left; lia|].
+      right. pose proof (bnd_ge call (clock (kern s)) (HeapModel.texp (heap s) (tmid j))). lia.
+    + left. apply DD0. apply abs_cmp_ge in CMP. exact CMP.
+Qed.
+
+Lemma poll_and_run_Q1 : forall s, J true s -> T1 s -> quit s = false -> InvW s -> (method s = M_ET -> LK s) ->
+  cur s = None -> HeapModel.batch (heap s) = [] -> RawPR s (AbsOf s) ->
+  Q1W s (fst (poll_and_run sc s (AbsOf s))).
+Proof.
+  intros s Jh T Q IW LKs C B HR. unfold poll_and_run. set (abs := AbsOf s) in *.
+  assert (DISP : forall r, Post0 true s r -> Q1W s r ->
+            Q1W s (bind r (fun s0 => dispatch_active sc (S (length (active s0))) s0))).
   { intros r P QW. destruct r as [s1|s1]; cbn [bind Post0 Q1W] in *; [|exact QW].
-    destruct P as [J1 _]. destruct QW as [TS1 RN1]. apply (Q1_Q1W s1); [exact RN1|].
+    destruct P as [J1 _]. destruct QW as (TS1 & RN1 & BF1). apply (Q1W_l s s1 _ BF1). apply (Q1_Q1W s1); [exact RN1|].
     apply dispatch_active_Q1; assumption. }
   assert (G : Post0 true s (fst (if method s =? M_ET
       then match timeout_check s abs with
@@ -314,7 +759,7 @@ Proof.
                              (bind r (fun s1 => R (if rt then set_last_abs s1 (last_abs s1) 0 else s1)), rt)
            | (R s0, false) => m_poll sc s0 abs
            end
-      else m_poll sc s abs)) /\ Q1W (fst (if method s =? M_ET
+      else m_poll sc s abs)) /\ Q1W s (fst (if method s =? M_ET
       then match timeout_check s abs with
            | (Halt s0, _) => (Halt s0, true)
            | (R s0, true) => let '(r, rt) := m_poll sc s0 None in
@@ -322,23 +767,40 @@ Proof.
            | (R s0, false) => m_poll sc s0 abs
            end
       else m_poll sc s abs))).
-  { destruct (Z.eqb_spec (method s) M_ET) as [ME|NE]; [|split; [apply m_poll_post|apply m_poll_Q1]; assumption].
+  { unfold RawPR in HR. pose proof (AbsReq_plain s Jh T C B) as RA0. fold abs in RA0, HR.
+    destruct (Z.eqb_spec (method s) M_ET) as [ME|NE].
+    2:{ split; [apply m_poll_post; assumption|]. apply (m_poll_Q1 s abs (fun _ => False)); try assumption; [intros D []|intros _ D H; exact H]. }
     pose proof (timeout_check_post s abs Jh ME) as P. pose proof (timeout_check_F0 s abs) as FT.
-    destruct (timeout_check s abs) as [[s0|s0] fl]; cbn [fst PostQ] in P, FT.
+    pose proof (timeout_check_ok sc WF do_action_ok s abs IW ME) as TC.
+    pose proof (timeout_check_LK s abs) as TLK. pose proof (timeout_check_true s abs) as TT.
+    destruct (timeout_check s abs) as [[s0|s0] fl]; cbn [fst PostQ okr] in P, FT, TC; unfold F0r in FT; cbn [res_state] in FT.
     2:{ cbn [fst Post0 Q1W]. split; [exact P|]. apply (t1_good s0). apply (T1_F0 s s0 T FT). }
     destruct P as (J0 & F0' & Q0). pose proof (T1_F0 s s0 T FT) as TS0.
+    destruct TC as (IW0 & _ & _ & IE0).
+    assert (NX : 0 <= next_fd (kern s)) by (pose proof (ki_next _ (ms_kinv _ (iw_misc _ IW))); lia).
+    specialize (TLK s0 fl (LKs ME) NX ME eq_refl). specialize (HR s0 fl eq_refl).
+    assert (BF0 : BatchF s s0) by (intros H; rewrite (F0_heap _ _ FT); exact H).
+    destruct (lf_fields _ _ (proj1 FT)) as (E1 & _ & _ & E4 & E5 & _).
+    assert (C0 : cur s0 = None) by congruence. assert (B0 : HeapModel.batch (heap s0) = []) by congruence.
+    assert (AO0 : AbsOf s0 = abs) by (unfold abs, AbsOf, soonest_timeout; rewrite E1, E4; reflexivity).
     destruct fl.
-    - pose proof (m_poll_post sc WF s0 None J0 ltac:(congruence)) as P.
-      pose proof (m_poll_Q1 s0 None J0 TS0 ltac:(congruence)) as QW.
+    - destruct (TT s0 eq_refl ME) as (M0 & C5 & CMP).
+      pose proof (AbsReq_armed s0 J0 TS0 C0 B0 ltac:(rewrite AO0; exact CMP)) as RA1.
+      pose proof (m_poll_post sc WF s0 None J0 ltac:(congruence)) as P.
+      pose proof (m_poll_Q1 s0 None (fun D => D = dd (last_abs s0)) J0 TS0 ltac:(congruence) IW0 RA1) as QW.
+      specialize (QW ltac:(intros D ->; apply LK_ArmedT; assumption)).
+      specialize (QW ltac:(intros H; rewrite IE0 in H; discriminate H) HR).
       destruct (m_poll sc s0 None) as [r rt]. cbn [fst] in *. split.
       + apply (Post0_cur true s s0); [apply (proj2 F0')|].
         eapply Post0_bind; [exact P|]. intros s1 J1 _. cbn [Post0].
-        split; [|intros C; destruct rt; exact C].
+        split; [|intros CC; destruct rt; exact CC].
         destruct rt; [apply J_set_last_abs; assumption|assumption].
-      + destruct r as [s1|s1]; cbn [bind Q1W] in *; [|exact QW]. destruct QW as [A B].
-        destruct rt; [|split; assumption]. split; [apply (T1_setters s1 _ A); reflexivity|exact B].
+      + apply (Q1W_l s s0 _ BF0). destruct r as [s1|s1]; cbn [bind Q1W] in *; [|exact QW]. destruct QW as (X & Y & Z).
+        destruct rt; [|split; [exact X|split; [exact Y|exact Z]]].
+        split; [apply (T1_setters s1 _ X); reflexivity|split; [exact Y|exact Z]].
     - split; [apply (Post0_cur true s s0); [apply (proj2 F0')|]; apply m_poll_post; [exact WF|assumption|congruence]|].
-      apply m_poll_Q1; [assumption|assumption|congruence]. }
+      apply (Q1W_l s s0 _ BF0).
+      apply (m_poll_Q1 s0 abs (fun _ => False)); try assumption; [congruence|eapply AbsReq_F0; eassumption|intros D []|intros _ D H; exact H]. }
   destruct (if method s =? M_ET
       then match timeout_check s abs with
            | (Halt s0, _) => (Halt s0, true)
@@ -348,128 +810,4 @@ Proof.
            end
       else m_poll sc s abs) as [r rt]. cbn [fst] in *. apply DISP; apply G.
 Qed.
-
-(* ---------- iv_main ---------- *)
-Lemma main_loop_Q1 : forall fuel s rt, J true s -> T1 s -> cur s = None -> ran (mst s) = [] ->
-  Q1T (main_loop sc fuel s rt).
-Proof.
-  induction fuel as [|fuel IH]; intros s rt Jh T C RN; cbn [main_loop].
-  - cbn [Q1T halt]. apply (t1_good (emit s TCrash)). apply (T1_F0 s _ T). apply (F0_halt s TCrash I).
-  - assert (P1 : Post true s (if rt then run_timers sc s else R s)).
-    { destruct rt; [apply run_timers_post; assumption|apply Post_same; assumption]. }
-    assert (QT : Q1 s (if rt then run_timers sc s else R s)).
-    { destruct rt; [apply run_timers_Q1; assumption|apply Q1_same; assumption]. }
-    destruct (if rt then run_timers sc s else R s) as [s1|s1]; cbn [bind Post Q1 Q1T] in *; [|exact QT].
-    destruct P1 as [J1 F1]. destruct QT as [TS1 R1].
-    pose proof (run_tasks_post sc WF s1 J1 (proj2 F1 C)) as P2.
-    pose proof (run_tasks_Q1 sc WF s1 J1 TS1 (proj2 F1 C) (R1 RN)) as Q2.
-    destruct (run_tasks sc s1) as [s2|s2]; cbn [bind PostT Q1T] in *; [|exact Q2].
-    destruct P2 as [J2 C2].
-    destruct (quit s2 || (numobjs s2 =? 0)) eqn:QN; [exact Q2|].
-    apply orb_false_iff in QN. destruct QN as [Q2' _].
-    set (abs := match tasks s2 with _ :: _ => Some 0 | [] => soonest_timeout s2 end).
-    pose proof (poll_and_run_post sc WF s2 abs J2 Q2') as P3.
-    pose proof (poll_and_run_Q1 s2 abs J2 Q2 Q2') as Q3.
-    destruct (poll_and_run sc s2 abs) as [r rt']. cbn [fst] in P3, Q3.
-    destruct r as [s3|s3]; cbn [bind Post0 Q1W Q1T] in *; [|exact Q3].
-    destruct P3 as [J3 C3]. destruct Q3 as [TS3 RN3]. apply IH; [exact J3|exact TS3|apply C3; exact C2|exact RN3].
-Qed.
-
-(* ---------- whole runs ---------- *)
-Lemma core0_T1 : T1 (core0 sc) /\ ran (mst (core0 sc)) = [].
-Proof.
-  unfold core0.
-  destruct (if (sc_backend sc =? M_ET) || (sc_backend sc =? M_EP) then _ else _) as [efd k].
-  split; [|reflexivity]. constructor.
-  - intros t H. cbn [heap HeapModel.batch HeapModel.init] in H. destruct H.
-  - intros _ H. discriminate H.
-  - intros y H. destruct H.
-  - split; intros H; destruct H.
-Qed.
-
-Lemma T1_plain_event : forall s e, T1 s ->
-  match e with TMain | TTear _ | TDone _ => True | _ => False end ->
-  T1 (emit s e) /\ ran (mst (emit s e)) = ran (mst s).
-Proof.
-  intros s e T C. split.
-  - apply T1_emit; [exact T| | | |]; destruct e; try contradiction;
-      try (rewrite a_stale_step; reflexivity); try (rewrite ran_step; reflexivity); cbn; intuition discriminate.
-  - rewrite mst_emit, ran_step. destruct e; try contradiction; reflexivity.
-Qed.
-
-Lemma T1_end : forall s q n, T1 s -> T1 (emit s (TEnd q n)).
-Proof.
-  intros s q n T. destruct (t1_good _ T) as [G401 G603].
-  assert (RN : ran (mst (emit s (TEnd q n))) = []) by (rewrite mst_emit, ran_step; reflexivity).
-  apply (T1_upd s _ T).
-  - left. repeat split.
-  - left. rewrite mst_emit, a_stale_step. repeat split.
-  - right. intros y Y. rewrite RN in Y. destruct Y.
-  - rewrite mst_emit. split; apply NF_step; try assumption; cbn; intuition discriminate.
-Qed.
-
-Lemma teardown_obj_Q1 : forall b s i, J b s -> T1 s -> ok_idx i -> Q1 s (teardown_obj s i).
-Proof.
-  intros b s i Jh T I. unfold teardown_obj.
-  eapply (Q1_bind b); [apply do_action_post; [assumption|exact I]|apply (do_action_Q1 b); [assumption|assumption|exact I]|]. intros s1 J1 T1'.
-  eapply (Q1_bind b); [apply do_action_post; [assumption|exact I]|apply (do_action_Q1 b); [assumption|assumption|exact I]|]. intros s2 J2 T2.
-  eapply (Q1_bind b); [apply do_action_post; [assumption|exact I]|apply (do_action_Q1 b); [assumption|assumption|exact I]|]. intros s3 J3 T3.
-  eapply (Q1_bind b); [apply do_action_post; [assumption|exact I]|apply (do_action_Q1 b); [assumption|assumption|exact I]|]. intros s4 J4 T4.
-  apply (do_action_Q1 b); [assumption|assumption|exact I].
-Qed.
-
-Lemma teardown_Q1 : forall b l s, J b s -> T1 s -> Forall ok_idx l -> Q1 s (teardown s l).
-Proof.
-  intros b l. induction l as [|i l IH]; intros s Jh T OK; cbn [teardown]; [apply Q1_same; exact T|].
-  inversion OK as [|? ? O1 O2]; subst.
-  eapply (Q1_bind b); [apply teardown_obj_post; assumption|apply (teardown_obj_Q1 b); assumption|].
-  intros s1 J1 T1'. apply IH; assumption.
-Qed.
-
-Lemma T1_deinit : forall s, T1 s -> T1 (deinit sc s).
-Proof.
-  intros s T. unfold deinit. destruct ((sc_backend sc =? M_ET) || (sc_backend sc =? M_EP)); [|exact T].
-  apply (T1_F0 s _ T). eapply F0_trans; [|apply do_close_F0].
-  destruct (tfd s =? -1); [apply F0_refl|apply do_close_F0].
-Qed.
-
-Theorem core_G1 : G1 (mon_run (run_scenario sc)).
-Proof.
-  unfold run_scenario.
-  match goal with |- G1 (mon_run (rev (trace (res_state ?r)))) => change (G1 (mst (res_state r))) end.
-  destruct core0_T1 as [T0 RN0].
-  pose proof (run_acts_post false (sc_setup sc) (core0 sc) (core0_J sc) (wf_setup sc WF)) as P0.
-  pose proof (run_acts_Q1 false (sc_setup sc) (core0 sc) (core0_J sc) T0 (wf_setup sc WF)) as Q0.
-  destruct (run_acts (core0 sc) (sc_setup sc)) as [s1|s1]; cbn [bind Post Q1 res_state] in *; [|exact Q0].
-  destruct P0 as [J1 F1]. destruct Q0 as [TS1 R1].
-  pose proof (J_main_enter s1 J1) as J2.
-  destruct (T1_plain_event s1 TMain TS1 I) as [TM RM].
-  set (s2 := set_quit (emit s1 TMain) false) in *.
-  assert (TS2 : T1 s2) by (apply (T1_setters (emit s1 TMain) s2 TM); reflexivity).
-  assert (RN2 : ran (mst s2) = []) by (change (mst s2) with (mst (emit s1 TMain)); rewrite RM; apply R1; exact RN0).
-  assert (C2 : cur s2 = None) by (apply (proj2 F1); apply core0_cur).
-  pose proof (main_loop_post sc WF (Z.to_nat (sc_limit sc) + 2) s2 true J2 C2) as P3.
-  pose proof (main_loop_Q1 (Z.to_nat (sc_limit sc) + 2) s2 true J2 TS2 C2 RN2) as Q3.
-  destruct (main_loop sc (Z.to_nat (sc_limit sc) + 2) s2 true) as [s3|s3]; cbn [bind res_state Q1T] in *; [|exact Q3].
-  pose proof (J_main_leave s3 P3) as J4.
-  pose proof (T1_end s3 (if quit s3 then 1 else 0) (numobjs s3) Q3) as TS4.
-  pose proof (teardown_post false (zseq 0 16) _ J4 zseq_ok) as P5.
-  pose proof (teardown_Q1 false (zseq 0 16) _ J4 TS4 zseq_ok) as Q5.
-  destruct (teardown (emit s3 (TEnd (if quit s3 then 1 else 0) (numobjs s3))) (zseq 0 16)) as [s5|s5];
-    cbn [bind Post Q1 res_state] in *; [|exact Q5].
-  destruct Q5 as [TS5 _].
-  destruct (T1_plain_event s5 (TTear (numobjs s5)) TS5 I) as [TS6 _].
-  pose proof (T1_deinit _ TS6) as TS7.
-  destruct (T1_plain_event _ (TDone (open_dyn (kern (deinit sc (emit s5 (TTear (numobjs s5))))))) TS7 I) as [TS8 _].
-  apply (t1_good _ TS8).
-Qed.
 End Wait.
-
-Theorem core_code_401 : forall sc, wf_scenario sc -> ~ In 401 (mon_fails (run_scenario sc)).
-Proof. intros sc WF. apply (proj1 (core_G1 sc WF)). Qed.
-
-Theorem core_code_603 : forall sc, wf_scenario sc -> ~ In 603 (mon_fails (run_scenario sc)).
-Proof. intros sc WF. apply (proj2 (core_G1 sc WF)). Qed.
-
-Print Assumptions core_code_401.
-Print Assumptions core_code_603.
